@@ -225,6 +225,8 @@ def handle (j : J) : Except String J := do
   else if op = "sendpath_strict" then SP.handle j
   else if op = "lock" then handleLock j
   else if op = "table" then pure tableJ
+  else if op = "ops" then
+    pure (J.mk [("ops", J.arr (Pox.HandoffSites.ops.map fun (f, els) => J.mk [("fn", J.str f), ("els", J.arr (els.map J.str))]))])
   else if op = "pinger" then
     -- sequence of 0 = ping, 1 = pongAll on a fresh pipe; answers the byte count after each op (error if pongAll blocks)
     let ops ← j.nats "ops"
